@@ -123,6 +123,104 @@ def cache_history(rec, rng, storage_class, threaded, n_ops):
     return desc
 
 
+class DeferredWorker:
+    """Deterministic stand-in for the I/O thread (task-granular deferred-execution model, DESIGN C20):
+    the worker is a FIFO queue of tasks; at each observation point of the caller an arbitrary prefix of the queue has run.
+    mode 'eager': every task runs at once; 'lazy': tasks run only at join_tasks(); 'random': a random prefix runs at every put."""
+
+    def __init__(self, mode, rng):
+        self.mode, self.rng, self.queue = mode, rng, []
+
+    def _run(self, n):
+        for _ in range(n):
+            fct, args, kwargs, rd, rk = self.queue.pop(0)
+            res = fct(*args, **kwargs)
+            if rd is not None:
+                rd[rk] = res
+
+    def put_task(self, fct, *args, return_dict=None, return_key=None, **kwargs):
+        self.queue.append((fct, args, kwargs, return_dict, return_key))
+        if self.mode == 'eager':
+            self._run(len(self.queue))
+        elif self.mode == 'random':
+            self._run(int(self.rng.integers(0, len(self.queue) + 1)) if hasattr(self.rng, 'integers') else self.rng.randint(0, len(self.queue)))
+
+    def join_tasks(self):
+        self._run(len(self.queue))
+
+    def __enter__(self):
+        return self
+
+    def __exit__(self, *a):
+        self._run(len(self.queue))
+
+
+def deferred_history(rec, rng, mode, n_ops, storage_class='PickleStorage'):
+    """histories on ThreadedStorage with the deterministic worker: covers the schedules the OS rarely produces"""
+    from tenpy.tools import cache as C
+    import numpy as np
+    disk = getattr(C, storage_class).open()
+    worker = DeferredWorker(mode, rng)
+    st = C.ThreadedStorage(worker, disk)
+    st._owns_resources = True
+    cache = C.CacheFile(st)
+    keys = ['a', 'b', 'c']
+    model, hist = {}, []
+    err = None
+    try:
+        for step in range(n_ops):
+            op = rng.choice(['set', 'set', 'get', 'get', 'del', 'preload', 'preload', 'stk', 'getd'])
+            k = rng.choice(keys)
+            if op == 'set':
+                v = rng.randrange(1000)
+                hist.append(('set', k, v))
+                cache[k] = np.array([v, step])
+                model[k] = (v, step)
+            elif op in ('get', 'getd'):
+                hist.append((op, k))
+                try:
+                    got = cache[k] if op == 'get' else cache.get(k, None)
+                    if got is None:
+                        if k in model:
+                            err = f'get({k!r}, None) -> None but {model[k]} was written'
+                    else:
+                        got = tuple(int(x) for x in got)
+                        if k not in model or got != model[k]:
+                            err = f'{op}({k!r}) returned {got}, latest value written is {model.get(k)}'
+                except KeyError:
+                    if k in model:
+                        err = f'get({k!r}) raised KeyError, value {model[k]} was written'
+            elif op == 'del':
+                hist.append(('del', k))
+                del cache[k]
+                model.pop(k, None)
+            elif op == 'preload':
+                ks = rng.sample(keys, rng.randint(1, 3))
+                hist.append(('preload', ks))
+                cache.preload(*ks)
+            elif op == 'stk':
+                ks = rng.sample(keys, rng.randint(0, 3))
+                hist.append(('set_short_term_keys', ks))
+                cache.set_short_term_keys(*ks)
+            if err:
+                break
+        if not err:
+            for kk in keys:
+                if kk in model and tuple(int(x) for x in cache[kk]) != model[kk]:
+                    err = f'final read of {kk!r} differs from the latest value written'
+    except Exception as e:
+        err = f'exception {type(e).__name__}: {e}'
+    finally:
+        try:
+            cache.close()
+        except Exception:
+            pass
+    desc = {'storage': storage_class, 'worker_schedule': mode, 'history': hist}
+    if err:
+        rec.violation(f'cache[{storage_class},deferred-worker={mode}]:dict-semantics', err, desc)
+    return desc
+
+
 def closing(rec):
     """closing is clean: everything raises afterwards, double close raises ValueError, no hang."""
     from tenpy.tools.cache import CacheFile
@@ -245,7 +343,8 @@ def run(rec):
     quick = rec.tier == 'quick'
     rec.rule = ('random histories of set/get/del/preload/set_short_term_keys/contains/len/sub-cache operations over '
                 '3 keys on the real CacheFile for every storage class x threading, compared with a dict; '
-                'random connect/disconnect/emit histories on the real EventHandler against a list model; '
+                'the same histories on ThreadedStorage with a deterministic worker (FIFO task queue; lazy / random-prefix / eager execution = '
+                'task-granular schedules); random connect/disconnect/emit histories on the real EventHandler against a list model; '
                 'non-trivial = history with at least one get after a set/del of the same key; distinct = distinct history')
     rec.bounds = {'history_length': 10, 'keys': 3, 'deadline_s': 20}
     configs = [('Storage', False), ('PickleStorage', False), ('PickleStorage', True), ('Hdf5Storage', False),
@@ -258,6 +357,13 @@ def run(rec):
             ops = [h[0] for h in d['history']]
             nontriv = any(o in ('get', 'get_default') for o in ops) and any(o in ('set', 'del') for o in ops)
             rec.case((sc, thr, repr(d['history'])), nontriv, sample=d if i == 0 else None)
+    for mode in ('lazy', 'random', 'eager'):
+        for i in range(60 if quick else 1500):
+            rec.begin(f'cache deferred-worker history mode={mode} #{i}')
+            d = deferred_history(rec, rng, mode, rng.randint(4, 10))
+            ops = [h[0] for h in d['history']]
+            rec.case(('deferred', mode, repr(d['history'])), 'preload' in ops and 'set' in ops and any(o.startswith('get') for o in ops),
+                     sample=d if i == 0 and mode == 'lazy' else None)
     closing(rec)
     failing_worker(rec)
     for i in range(60 if quick else 2000):
